@@ -271,6 +271,28 @@ pub fn run_op(op: &str, a: &[&str]) -> String {
             let mut acc = vec![];
             listing(&parse_set(a[0], &unhex(a[1]), &mut acc))
         }
+        // pl_new <kind> <hex>: the public payload constructors `XPayload::new(data)` and every accessor of the view they return
+        "pl_new" => {
+            let d = unhex(a[1]);
+            match a[0] {
+                "mcstatus" => match McGroupStatusAnsPayload::new(&d) {
+                    Err(_) => "ERR".into(),
+                    Ok(p) => {
+                        let items: Vec<String> = p.item_iterator().map(|i| format!("{}:{}", i.mc_group_id(), i.mc_addr().value())).collect();
+                        format!("OK {} {} {} {}", p.len(), p.ans_group_mask(), p.nb_total_groups(), items.join(" ")).trim_end().to_string()
+                    }
+                },
+                "linkadr" => match LinkADRReqPayload::new(&d) {
+                    Err(_) => "ERR".into(),
+                    Ok(p) => format!("OK {} {} {} {}", p.data_rate() as u8, p.tx_power() as u8, hex(p.channel_mask().as_ref()), p.redundancy().raw_value()),
+                },
+                "devstatus" => match DevStatusAnsPayload::new(&d) {
+                    Err(_) => "ERR".into(),
+                    Ok(p) => format!("OK {} {}", p.battery(), p.margin()),
+                },
+                _ => "BADARGS".into(),
+            }
+        }
         // mc_read <set> <hex> -> framing | accessor values
         "mc_read" => {
             let mut acc = vec![];
